@@ -9,9 +9,14 @@ with relative jumps that stay inside their fragment can be appended to and resum
 saved instruction pointer.
 
 Layer 2: the REPL state machine (`Repl`, the code as it is) against the Spec (`SpecSt`),
-for ALL histories of pieces.  `C18_full` is the property as stated; it is false on the
-unchanged code (five proved counterexamples, each replayed on the real code by the
-harness); `C18_partial` proves it for every history inside the decidable `guard`.
+for ALL histories of pieces.  `C18_full` is the property as stated; it is still false on the
+code (two proved counterexamples — functions keep the globals copy of the run that loaded them, a
+failed piece has declared its names — each replayed on the real code by the harness);
+`C18_partial` proves it for every history inside the decidable `guard` (G3, G4).  Three further
+defects were REPAIRED in /repo (rejected piece's code ran later, compiler stuck in a function, one
+stack slot per piece): their guards G1 and G2 are gone from `C18_partial`, the general theorems
+`rejected_piece_has_no_effect` and `leftover_stack_invisible` hold without any guard, and the old
+counterexamples are the historical statements `C18_fixed_*` about the pre-fix machine `PreFix.Repl`.
 -/
 namespace Risor.C18
 
@@ -163,30 +168,90 @@ def specObs (h : List Piece) : Obs :=
 def C18_full : Prop := ∀ h : List Piece, implObs h = specObs h
 
 /-- **C18_partial.**  For EVERY history of pieces (any number of pieces, any statements, with
-    rejected and failing pieces anywhere) that satisfies the decidable `guard` —
-    G1 a rejected piece is rejected at its first statement, before code was emitted and outside a
-    function body; G2 `PieceCountBelowCapacity`: the stack height (one slot per completed piece)
-    plus each statement's need stays below the VM's 1024 slots; G3 no statement calls a
-    global-sensitive function loaded by an earlier run; G4 a failing piece declares nothing from
-    its failing statement on — the REPL machine yields exactly the Spec's per-piece outcomes
-    (same value identities, same rejections and failures), the same trace of executed statements
-    (hence the same globals, values and output) and the same definitions for later pieces. -/
+    rejected and failing pieces anywhere — rejected at any statement, after any amount of emitted
+    code and declarations, inside function bodies or not) that satisfies the decidable `guard` —
+    G3 no statement calls a global-sensitive function loaded by an earlier run; G4 a failing piece
+    declares nothing from its failing statement on (the two recorded defects); and no accepted piece is
+    empty — the REPL machine yields exactly the Spec's per-piece outcomes (same value identities,
+    same rejections and failures), the same trace of executed statements (hence the same globals,
+    values and output) and the same definitions for later pieces.  The former guards G1 (a rejected
+    piece is rejected at its first statement, before code was emitted, outside a function body) and G2
+    (`PieceCountBelowCapacity`) are gone with the repairs of the code. -/
 theorem C18_partial (h : List Piece) (hg : guard h = true) : implObs h = specObs h := by
-  have inv0 : Inv {} {} {} := ⟨rfl, rfl, rfl, rfl, rfl, rfl, rfl, rfl⟩
+  have inv0 : Inv {} {} {} := ⟨rfl, rfl, rfl, rfl, rfl, rfl, rfl⟩
   obtain ⟨h1, inv⟩ := run_inv h {} {} {} inv0 hg
   simp only [implObs, specObs, h1, inv.trace, inv.syms]
 
-/-- **One operand-stack slot per piece** (the mechanism behind G2), for every history inside the
-    guard: after the history the VM's operand stack holds one value for every piece that
-    completed plus what failing statements leaked, the instruction pointer sits at the end of
-    the main code, and the compiler is not stuck inside a function. -/
-theorem stack_slot_per_piece (h : List Piece) (hg : guard h = true) :
+/-- **A rejected piece has no effect** — for EVERY state of the machine (reached by any history,
+    inside the guard or not) and EVERY piece with a statement that does not compile, wherever that
+    statement sits, whatever the statements before it emitted and declared, inside a function body
+    or not: the compiler and the VM are exactly as before (`Compile` rolled everything back), and
+    so is everything any later piece can observe. -/
+theorem rejected_piece_has_no_effect (r : Repl) (l : List Stmt) (hrej : allResolve r.comp.syms l = false) :
+    r.feed (.stmts l) = (r, .compileRejected) := by
+  simp only [Repl.feed, compileStmts_rejected r.comp.syms l hrej]
+
+/-- … and a piece is rejected exactly when one of its statements does not compile -/
+theorem rejected_iff (r : Repl) (l : List Stmt) :
+    (r.feed (.stmts l)).2 = .compileRejected ↔ allResolve r.comp.syms l = false := by
+  constructor
+  · intro h
+    by_cases hr : allResolve r.comp.syms l = true
+    · simp only [Repl.feed, compileStmts_ok r.comp.syms l hr] at h
+      split at h <;> cases h
+    · simpa using hr
+  · intro h
+    rw [rejected_piece_has_no_effect r l h]
+
+/-- **What the previous run left on the operand stack is invisible** — for EVERY state and EVERY
+    piece: replacing the stack by any other changes neither the outcome of the piece nor, when the
+    piece is accepted, anything of the state it leaves (Run drops the leftovers before it resumes). -/
+theorem leftover_stack_invisible (r : Repl) (stk : List Nat) (p : Piece) :
+    ({ r with vm := { r.vm with stack := stk } }.feed p).2 = (r.feed p).2 ∧
+    ((r.feed p).2 ≠ .parseRejected → (r.feed p).2 ≠ .compileRejected →
+      ({ r with vm := { r.vm with stack := stk } }.feed p).1 = (r.feed p).1) := by
+  cases p with
+  | bad => exact ⟨rfl, fun h => absurd rfl h⟩
+  | stmts l =>
+    simp only [Repl.feed]
+    split
+    · exact ⟨rfl, fun _ h => absurd rfl h⟩
+    · exact ⟨rfl, fun _ _ => rfl⟩
+
+/-- **The operand stack holds what the LAST run left, never more**, for every history inside the
+    guard: one value after a piece that completed, the failing statement's leak after a piece that
+    failed — however many pieces were fed before; and the instruction pointer sits at the end of
+    the main code. -/
+theorem stack_holds_last_run_only (h : List Piece) (hg : guard h = true) :
     (Repl.run {} h).1.vm.stack.length = (GSt.after {} h).ht ∧
-    (Repl.run {} h).1.vm.ip = (Repl.run {} h).1.comp.code.length ∧
-    (Repl.run {} h).1.comp.stuck = false := by
-  have inv0 : Inv {} {} {} := ⟨rfl, rfl, rfl, rfl, rfl, rfl, rfl, rfl⟩
+    (Repl.run {} h).1.vm.ip = (Repl.run {} h).1.comp.code.length := by
+  have inv0 : Inv {} {} {} := ⟨rfl, rfl, rfl, rfl, rfl, rfl, rfl⟩
   obtain ⟨_, inv⟩ := run_inv h {} {} {} inv0 hg
-  exact ⟨inv.ht, inv.ip, inv.stuck⟩
+  exact ⟨inv.ht, inv.ip⟩
+
+/-- the height the guard's bookkeeping records never exceeds one value or one failing statement's leak -/
+theorem ht_bounded (g : GSt) (p : Piece) (k : Nat) (hk : ∀ l, p = .stmts l → ∀ s ∈ l, s.leak ≤ k) :
+    (g.next p).ht ≤ max g.ht (max 1 k) := by
+  cases p with
+  | bad => simp only [GSt.next]; omega
+  | stmts l =>
+    simp only [GSt.next]
+    split
+    · have hl : ∀ l' : List Stmt, (∀ s ∈ l', s.leak ≤ k) → (match leakOf l' with | some j => j | none => 1) ≤ max 1 k := by
+        intro l'
+        induction l' with
+        | nil => intro _; simp only [leakOf]; omega
+        | cons s rest ih =>
+          intro hs
+          by_cases hf : s.fails = true
+          · have := hs s (List.mem_cons_self ..)
+            simp only [leakOf, hf, ↓reduceIte]; omega
+          · simp only [leakOf, hf, Bool.false_eq_true, ↓reduceIte]
+            exact ih (fun t ht => hs t (List.mem_cons_of_mem _ ht))
+      have := hl l (hk l rfl)
+      show (match leakOf l with | some j => j | none => 1) ≤ _
+      omega
+    · omega
 
 /-- **Incremental = whole, at the source level** (first sentence of the property, Spec side):
     for every state and every way of cutting a statement list into consecutive pieces that are
@@ -257,7 +322,7 @@ def specObsFrom (host : List Nat) (h : List Piece) : Obs :=
 /-- **C18_partial with host-supplied globals.**  For EVERY list `host` of names the embedding
     program supplies before the first piece (builtins, default modules — variables of the root
     symbol table) and EVERY history of pieces inside the guard evaluated with those names defined
-    (`guardHost`, the same four conditions G1–G4 as `C18_partial`), the REPL machine started with
+    (`guardHost`, the same conditions G3, G4 as `C18_partial`), the REPL machine started with
     the host's names yields exactly the Spec's per-piece outcomes, trace of executed statements
     and definitions.  In particular a piece that REBINDS a host-supplied name (a statement whose
     `asg` contains it) is accepted, is part of the trace from then on, and every later piece runs
@@ -265,7 +330,7 @@ def specObsFrom (host : List Nat) (h : List Piece) : Obs :=
 theorem C18_partial_host (host : List Nat) (h : List Piece) (hg : guardHost host h = true) :
     implObsFrom host h = specObsFrom host h := by
   have inv0 : Inv (Repl.init host) (SpecSt.init host) (GSt.init host) :=
-    ⟨rfl, rfl, rfl, rfl, rfl, rfl, rfl, rfl⟩
+    ⟨rfl, rfl, rfl, rfl, rfl, rfl, rfl⟩
   obtain ⟨h1, inv⟩ := run_inv h _ _ _ inv0 hg
   simp only [implObsFrom, specObsFrom, h1, inv.trace, inv.syms]
 
@@ -283,7 +348,8 @@ theorem host_stays_defined_spec (host : List Nat) (h : List Piece) (n : Nat) (hn
   simp [SpecSt.init, hostSyms, Syms.defined, hn]
 
 /-- **Host-supplied names stay defined (Impl).**  The same for the compiler of the REPL machine
-    as it is, for every history (no guard): `Compile` only ever adds to the symbol table. -/
+    as it is, for every history (no guard): an accepted `Compile` only adds to the symbol table, a
+    rejected one rolls back to exactly the table it started from. -/
 theorem host_stays_defined_impl (host : List Nat) (h : List Piece) (n : Nat) (hn : n ∈ host) :
     (Repl.run (Repl.init host) h).1.comp.syms.defined n = true := by
   apply repl_run_defined_mono
@@ -315,40 +381,7 @@ example : guardHost [1]
      .stmts [{ id := 2, uses := [1], asg := [1] }],
      .stmts [{ id := 3, isExpr := true, leaves := true, uses := [2], calls := [2] }]] = false := by decide
 
-/-! ### the unchanged code violates the property: five witnesses -/
-
-/-- `print("a")` / `print("x"); undefined_name` / `print("b")` -/
-def w_rejected : List Piece :=
-  [.stmts [{ id := 1, isExpr := true, leaves := true }],
-   .stmts [{ id := 2, isExpr := true, leaves := true }, { id := 3, isExpr := true, leaves := true, uses := [99] }],
-   .stmts [{ id := 4, isExpr := true, leaves := true }]]
-
-/-- **Counterexample 1 (rejected piece's code runs later).**  The second piece is rejected by the
-    compiler, yet its first statement's code stays in the main code and runs with the third
-    piece: the trace is 1,2,4 where the Spec demands 1,4. -/
-theorem C18_counterexample_rejected_piece : ¬ C18_full := fun h => by
-  have := h w_rejected
-  revert this
-  decide
-
-/-- `7` / an expression whose evaluation needs all 1024 operand slots -/
-def w_capacity : List Piece :=
-  [.stmts [{ id := 1, isExpr := true, leaves := true }],
-   .stmts [{ id := 2, isExpr := true, leaves := true, need := 1024 }]]
-
-/-- **Counterexample 2 (one stack slot per piece).**  Every piece leaves its value on the operand
-    stack, so the second piece starts one slot higher than the same statement in the whole
-    program and overflows, while the concatenated program runs (it pops between statements). -/
-theorem C18_counterexample_stack_slot_per_piece :
-    ¬ C18_full ∧
-    implObs [wholeOf [[{ id := 1, isExpr := true, leaves := true }],
-                      [{ id := 2, isExpr := true, leaves := true, need := 1024 }]]]
-      = specObs [wholeOf [[{ id := 1, isExpr := true, leaves := true }],
-                          [{ id := 2, isExpr := true, leaves := true, need := 1024 }]]] := by
-  refine ⟨fun h => ?_, by decide⟩
-  have := h w_capacity
-  revert this
-  decide
+/-! ### the code still violates the property: two witnesses (recorded findings) -/
 
 /-- `x := 1; func f() { return x }` / `x = 5` / `f()` -/
 def w_stale : List Piece :=
@@ -356,25 +389,11 @@ def w_stale : List Piece :=
    .stmts [{ id := 3, uses := [1], asg := [1] }],
    .stmts [{ id := 4, isExpr := true, leaves := true, uses := [2], calls := [2] }]]
 
-/-- **Counterexample 3 (functions keep the globals copy of the run that loaded them).**  `Run`
+/-- **Counterexample (functions keep the globals copy of the run that loaded them).**  `Run`
     reloads the main code with a fresh copy of the globals; a function loaded by an earlier run
     still reads and writes the old copy, so `f()` in the third piece does not see `x = 5`. -/
 theorem C18_counterexample_stale_function_globals : ¬ C18_full := fun h => by
   have := h w_stale
-  revert this
-  decide
-
-/-- `x := 1` / `func g() { undefined_name }` / `print("hello")` -/
-def w_stuck : List Piece :=
-  [.stmts [{ id := 1, vdecl := [1] }],
-   .stmts [{ id := 2, leaves := true, uses := [99], cdecl := [2], inFn := true }],
-   .stmts [{ id := 3, isExpr := true, leaves := true }]]
-
-/-- **Counterexample 4 (compiler left inside a function).**  A compile error inside a function
-    body leaves `compiler.current` in that function's code object; every later piece is compiled
-    into it and never runs. -/
-theorem C18_counterexample_stuck_compiler : ¬ C18_full := fun h => by
-  have := h w_stuck
   revert this
   decide
 
@@ -383,21 +402,88 @@ def w_failed_decl : List Piece :=
   [.stmts [{ id := 1, vdecl := [1], fails := true }],
    .stmts [{ id := 2, isExpr := true, leaves := true, uses := [1] }]]
 
-/-- **Counterexample 5 (a failed piece has still declared its names).**  The declaration never
+/-- **Counterexample (a failed piece has still declared its names).**  The declaration never
     executed, yet the next piece compiles against it (and reads nil) instead of being rejected. -/
 theorem C18_counterexample_failed_piece_declares : ¬ C18_full := fun h => by
   have := h w_failed_decl
   revert this
   decide
 
-/-! ### the guard names exactly these five situations; it is satisfiable by rich histories -/
+/-! ### three defects were repaired: the old witnesses, on the pre-fix machine and on the code as it is -/
 
-example : guard w_rejected = false ∧ guard w_capacity = false ∧ guard w_stale = false ∧
-    guard w_stuck = false ∧ guard w_failed_decl = false := by decide
+def preFixObs (h : List Piece) : Obs :=
+  let r := PreFix.Repl.run {} h
+  ⟨r.2, r.1.vm.trace, r.1.comp.syms⟩
+
+/-- `print("a")` / `print("x"); undefined_name` / `print("b")` -/
+def w_rejected : List Piece :=
+  [.stmts [{ id := 1, isExpr := true, leaves := true }],
+   .stmts [{ id := 2, isExpr := true, leaves := true }, { id := 3, isExpr := true, leaves := true, uses := [99] }],
+   .stmts [{ id := 4, isExpr := true, leaves := true }]]
+
+/-- `zr := 5; 1 + undefined_name` / `zr`: a declaration and a pending operand before the error -/
+def w_rejected_decl : List Piece :=
+  [.stmts [{ id := 1, vdecl := [1] }, { id := 2, isExpr := true, leaves := true, uses := [99], pre := 1 }],
+   .stmts [{ id := 3, isExpr := true, leaves := true, uses := [1] }]]
+
+/-- **HISTORICAL (finding C18-rejected-piece-code-runs-later, repaired).**  Before `Compile` rolled
+    back, the second piece of `w_rejected` was rejected, yet its first statement's code stayed in the
+    main code and ran with the third piece (trace 1,2,4 where the Spec demands 1,4), and the rejected
+    piece of `w_rejected_decl` had declared `zr` for later input.  On the code as it is both histories
+    are inside the guard and equal the Spec. -/
+theorem C18_fixed_rejected_piece_code_ran_later :
+    preFixObs w_rejected ≠ specObs w_rejected ∧ (preFixObs w_rejected).trace.map (·.1) = [1, 2, 4] ∧
+    preFixObs w_rejected_decl ≠ specObs w_rejected_decl ∧
+    guard w_rejected = true ∧ implObs w_rejected = specObs w_rejected ∧ (implObs w_rejected).trace.map (·.1) = [1, 4] ∧
+    guard w_rejected_decl = true ∧ implObs w_rejected_decl = specObs w_rejected_decl ∧
+    (implObs w_rejected_decl).outcomes = [.compileRejected, .compileRejected] := by decide
+
+/-- `7` / an expression whose evaluation needs all 1024 operand slots -/
+def w_capacity : List Piece :=
+  [.stmts [{ id := 1, isExpr := true, leaves := true }],
+   .stmts [{ id := 2, isExpr := true, leaves := true, need := 1024 }]]
+
+/-- **HISTORICAL (finding C18-stack-slot-per-piece, repaired).**  Before `Run` dropped the previous
+    result, every piece left its value on the operand stack, so the second piece started one slot
+    higher than the same statement in the whole program and overflowed, while the concatenated
+    program ran (it pops between statements).  On the code as it is the history equals the Spec and
+    the stack holds one value after it. -/
+theorem C18_fixed_stack_slot_per_piece :
+    preFixObs w_capacity ≠ specObs w_capacity ∧ (preFixObs w_capacity).outcomes = [.ok 1, .failed] ∧
+    preFixObs [wholeOf [[{ id := 1, isExpr := true, leaves := true }],
+                        [{ id := 2, isExpr := true, leaves := true, need := 1024 }]]]
+      = specObs [wholeOf [[{ id := 1, isExpr := true, leaves := true }],
+                          [{ id := 2, isExpr := true, leaves := true, need := 1024 }]]] ∧
+    (PreFix.Repl.run {} (w_capacity.take 1 ++ w_capacity.take 1 ++ w_capacity.take 1)).1.vm.stack.length = 3 ∧
+    (Repl.run {} (w_capacity.take 1 ++ w_capacity.take 1 ++ w_capacity.take 1)).1.vm.stack.length = 1 ∧
+    guard w_capacity = true ∧ implObs w_capacity = specObs w_capacity ∧
+    (Repl.run {} w_capacity).1.vm.stack.length = 1 := by decide
+
+/-- `x := 1` / `func g() { undefined_name }` / `print("hello")` -/
+def w_stuck : List Piece :=
+  [.stmts [{ id := 1, vdecl := [1] }],
+   .stmts [{ id := 2, leaves := true, uses := [99], cdecl := [2], inFn := true }],
+   .stmts [{ id := 3, isExpr := true, leaves := true }]]
+
+/-- **HISTORICAL (finding C18-compiler-stuck-in-function, repaired).**  Before compileFunc switched
+    back on its error paths, a compile error inside a function body left `compiler.current` in that
+    function's code object; every later piece was compiled into it, reported as accepted, and never
+    ran.  On the code as it is the third piece runs. -/
+theorem C18_fixed_stuck_compiler :
+    preFixObs w_stuck ≠ specObs w_stuck ∧ (preFixObs w_stuck).trace.map (·.1) = [1] ∧
+    (PreFix.Repl.run {} w_stuck).1.comp.stuck = true ∧
+    guard w_stuck = true ∧ implObs w_stuck = specObs w_stuck ∧ (implObs w_stuck).trace.map (·.1) = [1, 3] := by decide
+
+/-! ### the guard names exactly the two recorded situations; it is satisfiable by rich histories -/
+
+example : guard w_stale = false ∧ guard w_failed_decl = false := by decide
+example : violatedGuards w_stale = ["stale-fn"] ∧ violatedGuards w_failed_decl = ["decl-after-failure"] ∧
+    violatedGuards w_rejected = [] ∧ violatedGuards w_capacity = [] ∧ violatedGuards w_stuck = [] := by decide
 
 /-- a history inside the guard: definitions used by later pieces, a function defined and called
-    in one piece, a parse error, an undefined name, a constant reassignment, a failing piece
-    between prints, and a use of an earlier definition afterwards -/
+    in one piece, a parse error, an undefined name, a constant reassignment, a piece rejected at its
+    second statement after a declaration and pending operands, a compile error inside a function body,
+    a failing piece between prints, and a use of an earlier definition afterwards -/
 def w_inside : List Piece :=
   [.stmts [{ id := 1, cdecl := [1] }, { id := 2, vdecl := [2] }],
    .bad,
@@ -405,6 +491,8 @@ def w_inside : List Piece :=
            { id := 4, isExpr := true, leaves := true, uses := [3], calls := [3] }],
    .stmts [{ id := 5, isExpr := true, leaves := true, uses := [77] }],
    .stmts [{ id := 6, uses := [1], asg := [1] }],
+   .stmts [{ id := 12, vdecl := [9] }, { id := 13, isExpr := true, leaves := true, uses := [77], pre := 2, junk := true }],
+   .stmts [{ id := 14, leaves := true, uses := [77], cdecl := [8], inFn := true }],
    .stmts [{ id := 7, isExpr := true, leaves := true }, { id := 8, isExpr := true, leaves := true, fails := true, leak := 1 },
            { id := 9, isExpr := true, leaves := true }],
    .stmts [{ id := 10, uses := [2], asg := [2] }, { id := 11, isExpr := true, leaves := true, uses := [2] }]]
@@ -412,10 +500,15 @@ def w_inside : List Piece :=
 example : guard w_inside = true := by decide
 example : implObs w_inside = specObs w_inside := C18_partial _ (by decide)
 example : (implObs w_inside).outcomes =
-    [.ok 0, .parseRejected, .ok 4, .compileRejected, .compileRejected, .failed, .ok 11] := by decide
+    [.ok 0, .parseRejected, .ok 4, .compileRejected, .compileRejected, .compileRejected, .compileRejected, .failed, .ok 11] := by decide
 example : (implObs w_inside).trace.map (·.1) = [1, 2, 3, 4, 7, 8, 10, 11] := by decide
+/-- the names the two late-rejected pieces declared before their errors (9, 8) are not defined afterwards -/
+example : (implObs w_inside).syms.defined 9 = false ∧ (implObs w_inside).syms.defined 8 = false := by decide
 
-example : (GSt.after {} w_inside).ht = 4 := by decide
+example : (GSt.after {} w_inside).ht = 1 := by decide
+/-- many pieces, one value: the former capacity witness shape, 3 pieces deep -/
+example : (Repl.run {} [.stmts [{ id := 1, isExpr := true, leaves := true }], .stmts [{ id := 2, isExpr := true, leaves := true }],
+    .stmts [{ id := 3, isExpr := true, leaves := true }]]).1.vm.stack = [3] := by decide
 
 /-- `jumpsLocal` is satisfiable by a fragment with a loop and a conditional exit, and refuses a
     jump past the end and a backward jump before the start -/
@@ -430,51 +523,61 @@ example : jumpsLocal [.jb 1, .op 1] = false := by decide
     would compile it — same emitted instruction forms, same acceptance, nothing left set. -/
 def C18_marks_full : Prop := ∀ h : List (List CEv), (∀ evs ∈ h, balancedFrom 0 evs = true) → marksRun [] h = marksSpec h
 
-/-- **marks_partial.**  For EVERY history of piece compilations (any number of pieces, accepted
-    and rejected ones in any order, any nesting of pipes, loops, blocks, switches) in which
-    `enter`/`leave` are bracketed and every compile error surfaces outside a function literal
-    (`marksGuard`), every piece — in particular every piece that follows a REJECTED one — is
-    compiled exactly as by a fresh compiler: the instruction forms (`Call` vs `Partial`, …) do not
-    depend on the pieces before it and no compile-only mark survives a Compile call. -/
-theorem marks_partial (h : List (List CEv)) (hg : marksGuard h = true) : marksRun [] h = marksSpec h := by
-  induction h with
-  | nil => rfl
-  | cons evs rest ih =>
-    simp only [marksGuard, List.all_cons, Bool.and_eq_true] at hg
-    have hown := compileEvs_own_nil [] evs [] hg.1.1 hg.1.2
-    simp only [marksRun, marksSpec, List.map_cons, hown, List.append_nil]
-    rw [ih (by simpa [marksGuard] using hg.2)]
-    rfl
+/-- **C18_marks: the full statement holds.**  For EVERY history of piece compilations (any number of
+    pieces, accepted and rejected ones in any order, any nesting of pipes, loops, blocks, switches AND
+    function literals, compile errors anywhere — inside function bodies too) in which `enter`/`leave`
+    are bracketed, every piece — in particular every piece that follows a REJECTED one — is compiled
+    exactly as by a fresh compiler: the instruction forms (`Call` vs `Partial`, …) do not depend on the
+    pieces before it and no compile-only mark survives a Compile call.  (Before the repair of
+    C18-compiler-stuck-in-function this was `marks_partial` under a guard excluding errors inside
+    function literals, and `C18_marks_full` was refuted: see `C18_fixed_marks`.) -/
+theorem C18_marks : C18_marks_full := by
+  intro h hb
+  have := marksRunR_eq Mark.restored h (fun evs he => ⟨hb evs he, errClean_restored evs []⟩)
+  simpa [marksRun, marksSpec, compileEvs] using this
 
-/-- **Nothing survives a Compile call** whose marks are all restored on the error path (as
-    `pipeActive`, `loops`, `symbols`, `pendingSwitchValues` are): for every bracketed event
-    sequence, accepted or rejected at any point, and whatever earlier calls left set. -/
-theorem marks_restored (inh : List Mark) (evs : List CEv) (hb : balancedFrom 0 evs = true)
-    (hm : ∀ m ∈ marksOf evs, m.restored = true) : (compileEvs inh [] evs).own = [] :=
-  compileEvs_own_nil inh evs [] hb (errClean_of_restored evs [] (by simp) hm)
+/-- `C18_marks` in the form with the decidable well-formedness predicate `marksWf` (kept under the name the
+    guarded theorem had: the guard `errClean` is gone) -/
+theorem marks_partial (h : List (List CEv)) (hb : marksWf h = true) : marksRun [] h = marksSpec h :=
+  C18_marks h (fun evs he => by simpa using (List.all_eq_true.1 hb) evs he)
 
-/-- the four marks that are restored on the error path, and the one that is not -/
+/-- **Nothing survives a Compile call**: for every bracketed event sequence, accepted or rejected at
+    any point (inside a function literal too), and whatever earlier calls left set. -/
+theorem marks_restored (inh : List Mark) (evs : List CEv) (hb : balancedFrom 0 evs = true) :
+    (compileEvs inh [] evs).own = [] :=
+  compileEvsR_own_nil Mark.restored inh evs [] hb (errClean_restored evs [])
+
+/-- all five compile-only marks are restored on the error path -/
 theorem marks_table : Mark.pipe.restored = true ∧ Mark.loop.restored = true ∧ Mark.block.restored = true ∧
-    Mark.switchVal.restored = true ∧ Mark.fn.restored = false := by decide
+    Mark.switchVal.restored = true ∧ Mark.fn.restored = true := by decide
 
-/-- `func() { undefined }` / `f(1)`: the second piece is emitted inside the dead function -/
+/-- `func() { undefined }` / `f(1)`: before the repair the second piece was emitted inside the dead function -/
 def w_marks_fn : List (List CEv) := [[.enter .fn, .err], [.emit 1 [.pipe, .fn]]]
 
-/-- **Counterexample (compile-only state survives a rejected piece)**: `Compiler.current` is not
-    restored when the error surfaces inside a function literal (finding C18-compiler-stuck-in-function). -/
-theorem C18_counterexample_marks : ¬ C18_marks_full := fun h => by
-  have := h w_marks_fn (by decide)
-  revert this
-  decide
+/-- **HISTORICAL (finding C18-compiler-stuck-in-function, repaired): compile-only state survived a
+    rejected piece.**  Under the pre-fix table (`Compiler.current` not restored when the error
+    surfaces inside a function literal) the second piece of `w_marks_fn` was emitted under the `fn`
+    mark; under the table of the code as it is it is compiled as by a fresh compiler.  What WAS
+    provable before the repair: the statement under `preFixMarksGuard` (general, second conjunct). -/
+theorem C18_fixed_marks :
+    (marksRunR preFixRestored [] w_marks_fn ≠ w_marks_fn.map (compileEvsR preFixRestored [] [])) ∧
+    (∀ h : List (List CEv), preFixMarksGuard h = true →
+      marksRunR preFixRestored [] h = h.map (compileEvsR preFixRestored [] [])) ∧
+    preFixMarksGuard w_marks_fn = false ∧ marksRun [] w_marks_fn = marksSpec w_marks_fn := by
+  refine ⟨by decide, fun h hg => ?_, by decide, by decide⟩
+  apply marksRunR_eq
+  intro evs he
+  have := (List.all_eq_true.1 hg) evs he
+  simpa using this
 
-/-- a rejected pipe (`xs | sorted | undefined`) followed by a call and a pipe: inside the guard,
+/-- a rejected pipe (`xs | sorted | undefined`) followed by a call and a pipe:
     the call is emitted as `Call` (under no mark), the call inside the later pipe as `Partial` -/
 def w_marks_pipe : List (List CEv) :=
   [[.enter .pipe, .emit 1 [], .err], [.emit 2 [.pipe]], [.enter .pipe, .emit 3 [.pipe], .emit 4 [], .leave]]
 
-example : marksGuard w_marks_pipe = true := by decide
+example : marksWf w_marks_pipe = true ∧ marksWf w_marks_fn = true := by decide
 example : (marksRun [] w_marks_pipe).map (·.code) = [[(1, [])], [(2, [])], [(3, [.pipe]), (4, [])]] := by decide
-example : marksGuard w_marks_fn = false := by decide
+example : (marksRun [] w_marks_fn).map (·.code) = [[], [(1, [])]] := by decide
 
 /-! ## Layer 4: the time a function is bound to a generation of the globals -/
 
